@@ -2,7 +2,7 @@
 //
 // The check enumerates, exhaustively within stated grids, (1) decimals, (2) instants x value zone x
 // environment, (3) calendar dates and times of day x environment, (4) JSON documents over a leaf/key
-// alphabet, and (5) pairs of values for the '=' operator, and runs every case through the real
+// alphabet and over a character alphabet, and (5) pairs of values for the '=' operator, and runs every case through the real
 // render -> parse (or parse_json -> json) round trip of goflow. The oracle is written against the
 // property statement only:
 //
@@ -31,7 +31,11 @@
 //     decimals (so 1E+2 == 100, 0.10 == 0.1, -0 == 0), strings as sequences of code points after
 //     unescaping, a lone surrogate escape being read as U+FFFD (what encoding/json and every
 //     UTF-8-based reader makes of it). A document that json.Valid accepts but parse_json rejects has not
-//     survived either and is reported.
+//     survived either and is reported. Besides the structural family (every document shape over a few
+//     strings) there is the character sweep (jsonchars.go: a few document shapes over every code point
+//     of a stated set, in every written form, as member NAME, as string value and as both, at top level
+//     and nested in objects and arrays) with the same oracle; its failure signatures carry the role and
+//     the class of the swept character.
 //   - '=':      operators.Equal(a, b) is true exactly when the canonical renderings (Render) of a and b
 //     are the same text; a value equals its own rendering as text and the value parsed back from it;
 //     for numbers the rendering is canonical: two decimals render to the same text exactly when they
@@ -133,7 +137,7 @@ func envsFor(tzn string) []*envSpec {
 
 // replay is the artefact from which one case is re-executed.
 type replay struct {
-	Kind   string `json:"kind"` // number | number-pair | datetime | datetime-pair | date | time | json | json-pair
+	Kind   string `json:"kind"` // number | number-pair | datetime | datetime-pair | date | time | json | json-char | json-pair
 	Form   string `json:"form,omitempty"`
 	DF     string `json:"date_format,omitempty"`
 	TF     string `json:"time_format,omitempty"`
@@ -152,6 +156,11 @@ type replay struct {
 	Time   []int  `json:"time,omitempty"`
 	Doc    string `json:"doc,omitempty"`
 	Doc2   string `json:"doc2,omitempty"`
+	// json-char: the swept code point ("U+XXXX"), its written form (Form), its position in the string and the
+	// place of the string in the document; Doc is the resulting document (informative, rebuilt on replay)
+	Char string `json:"char,omitempty"`
+	Pos  string `json:"position,omitempty"`
+	Ctx  string `json:"context,omitempty"`
 }
 
 func (es *envSpec) fill(rp replay) replay {
@@ -187,13 +196,14 @@ func run(c *mc.Ctx) {
 	runDates(c, u)
 	runTimes(c, u)
 	runJSON(c, u)
+	runJSONChars(c, u)
 	runJSONPairs(c, u)
 	c.Max("work_units", int64(u.n))
 }
 
 func expired(c *mc.Ctx, part string) bool {
 	if c.Expired() {
-		c.Cap("time budget reached in part '" + part + "'; parts run in the fixed order numbers, number pairs, datetimes, datetime pairs, dates, times, JSON, JSON pairs and every work unit before the cap was enumerated completely")
+		c.Cap("time budget reached in part '" + part + "'; parts run in the fixed order numbers, number pairs, datetimes, datetime pairs, dates, times, JSON, JSON character sweep, JSON pairs and every work unit before the cap was enumerated completely")
 		return true
 	}
 	return false
@@ -231,6 +241,14 @@ func replayFn(c *mc.Ctx, raw json.RawMessage) (string, bool) {
 		outcome, ps = evalTime(c, es, dates.NewTimeOfDay(rp.Time[0], rp.Time[1], rp.Time[2], rp.Time[3]), rp.Form)
 	case "json":
 		outcome, ps = evalJSON(c, es, rp.Doc, nil)
+	case "json-char":
+		r, ok := parseCharName(rp.Char)
+		if !ok {
+			return "bad replay: code point " + rp.Char, false
+		}
+		var doc string
+		outcome, ps, doc = evalJSONChar(c, es, r, rp.Form, rp.Pos, rp.Ctx)
+		rp.Doc = doc
 	case "json-pair":
 		outcome, ps = evalJSONPair(c, es, rp.Doc, rp.Doc2)
 	default:
@@ -293,7 +311,24 @@ func guards(r *mc.Result, tier string) []string {
 			need("json:key-survived:" + k.kind)
 		}
 	}
-	for _, k := range []string{"numbers", "number_pairs", "datetime_iso_cases", "datetime_env_cases", "date_cases", "time_cases", "json_docs", "json_pairs"} {
+	// the character sweep: every class of code point stood as a member name, as a value and as both, and came back;
+	// every written form, position and context was used
+	for _, cl := range charClasses(tier) {
+		for _, role := range []string{"key", "value", "both"} {
+			need("json-char:used:" + role + ":" + cl)
+			need("json-char:survived:" + role + ":" + cl)
+		}
+	}
+	for _, x := range charForms {
+		need("json-char:form:" + x)
+	}
+	for _, x := range charPositions {
+		need("json-char:position:" + x)
+	}
+	for _, cx := range charContexts {
+		need("json-char:context:" + cx.name)
+	}
+	for _, k := range []string{"numbers", "number_pairs", "datetime_iso_cases", "datetime_env_cases", "date_cases", "time_cases", "json_docs", "json_char_docs", "json_pairs"} {
 		if r.Counters[k] == 0 {
 			f = append(f, "no cases of kind "+k)
 		}
@@ -308,10 +343,13 @@ func init() {
 		Level: "exploration",
 		Rule: "bounded exhaustive enumeration of value grids on the real conversion code: (1) decimals coefficient x exponent (every integer coefficient |c| <= 1100 plus 2^63-1, 2^63, 2^64, 20- and 30-digit ones, both signs; exponent -30..30 quick, -400..400 thorough), render -> ToXNumber and the contact-field parser; " +
 			"(2) instants = calendar grid (years incl. 1, 99, 999, 1000, LMT era, now-1..now+1, 2068/2069, 9999 x months x days x hours x minutes x seconds x nanos) taken in each value zone, plus 12 instants around EVERY offset transition 1800-2040 of every zone (all DST gaps and folds, LMT changes, the day Apia skipped), each x every environment = 3 date formats x 4 time formats x zone, in ISO form and in the environment format; " +
-			"(3) every calendar date of the year grid and a time-of-day grid x every environment x {ISO, environment format}; (4) every JSON document of depth <= 2 and width <= 2 over the full leaf and key alphabets in two serialisations, and every document of depth 3 (width <= 2) over a reduced alphabet, through parse_json -> json; (5) pairs for '=': number grid squared, datetime set squared, small JSON documents squared. " +
+			"(3) every calendar date of the year grid and a time-of-day grid x every environment x {ISO, environment format}; (4) every JSON document of depth <= 2 and width <= 2 over the full leaf and key alphabets (20 leaves; 14 member names incl. empty, __default__, case variants, escaped/raw non-ASCII, a lone surrogate, and names made of NUL, a control character without a short escape, an escaped newline, raw DEL, an escaped surrogate pair and a raw unprintable astral character) in two serialisations, and every document of depth 3 (width <= 2) over a reduced alphabet (whose member names include the control-character one, so such names also stand in objects nested in objects and arrays), through parse_json -> json; " +
+			"(4b) the character sweep: every code point of a stated set (quick: U+0000..U+07FF complete - all C0 controls, DEL, C1 - plus blocks around every boundary: first 3-byte, U+2000..U+206F, just below/above the surrogates, non-characters, U+FEFF, U+FFF0..U+FFFF incl. U+FFFD, first astral, emoji, unassigned astral, tag characters U+E0000..U+E007F, astral private use, the last 16 code points; 2496 in all; thorough: every Unicode scalar value) x every written form JSON allows for it {raw, short escape, \\uXXXX lower-case, \\uXXXX upper-case; surrogate pair for astral} x position in the string {alone, leading, trailing, inner} x 14 places of the string in a document {member NAME: of the top-level object, between other members, of an object in an object, in an array, in an array in an object, in an object in an array; string VALUE: top level, in array, in object, and the two depth-3 nestings; NAME and VALUE of the same member: top level, in array, in object} through parse_json -> json (code points outside the quick set, thorough tier: positions {alone, inner} x 6 of the places); " +
+			"(5) pairs for '=': number grid squared, datetime set squared, small JSON documents squared. " +
 			"A case is distinct by construction (no tuple is enumerated twice; ISO-form cases are counted once per instant x value zone x environment zone, not per date/time format, since the ISO text does not depend on the formats) and non-trivial when the round trip was actually executed on a non-empty rendering and compared (out-of-domain instants are not counted).",
 		Assumptions: []string{
 			"value grids, zones {UTC, America/New_York, Asia/Kathmandu, Africa/Kigali, Pacific/Apia, America/Sao_Paulo (+Australia/Lord_Howe thorough)} and the JSON leaf/key alphabets are representative; depth-3 JSON documents use a reduced alphabet",
+			"character sweep: the quick tier's code point set (all of U+0000..U+07FF and 15 boundary blocks) represents every class of code point a JSON reader/writer distinguishes (the thorough tier takes every scalar value); the swept character occurs once per string, next to ASCII letters only; lone surrogates are not swept (they are a member of the leaf and key alphabets)",
 			"environments are built with the default locale (en): am/pm markers of other locales are not in the statement's quantifier and not explored",
 			"the host's IANA timezone database is used by both goflow and the oracle; decimal exponents are kept within +-400 (1e2147483648 is outside the decimal type)",
 			"the clock consulted by goflow's date parser is fixed at 2026-06-15 (dates.SetNowFunc)",
